@@ -312,6 +312,13 @@ def main():
             raise tlc.TLCFailure(f"Checkpoint {proto} {extra}: expected {want}, got {r.status}")
         r.cleanup()
     cov = {"states": states, "transitions": trans}
+    # system model with atomic saves, process death and resume in a fresh process (MC_PSRun: ResumeExact, OneBatchPerIteration,
+    # CallsExact, HistBetaMonotone keep holding across a resume; the `loadnothing` variant must be refuted)
+    mc = sysrun.model_part(ck, "C08", variants=["loadnothing"], tier=ck.tier, crashes=1, maxiter=2 if ck.tier == "quick" else 3,
+                           configs=[dict(clustering="TRUE", every=2, metric="ess", cap=0)] if ck.tier == "quick" else [dict(clustering="FALSE", every=1, metric="ess", cap=0)])
+    cov["states"] += mc.pop("states")
+    cov["transitions"] += mc.pop("transitions")
+    cov.update(mc)
     cov.update(fault_part(ck))
     cov.update(resume_part(ck))
     cov.update({
